@@ -266,7 +266,7 @@ pub fn run(ctx: &Ctx) {
     ctx.judge_all(cases, Via::Fast, None);
     ctx.judge_all(lexical_errors(ctx), Via::Cli, None);
     plain_cases(ctx, ctx.n(3_000, 100_000));
-    let n = ctx.n(8_000, 600_000);
+    let n = ctx.n(20_000, 600_000);
     let via = if ctx.tier == Tier::Quick { Via::Cli } else { Via::Fast };
     ctx.proptest_tapes("random_interp", n / 2, 80, via, None, |t| {
         let parts = random_parts(t);
